@@ -52,10 +52,17 @@ def rot_of_class(rng, cls):
         return rm.rodrigues(rand_axis(rng), PI - 10.0**rng.uniform(-12, -3))
     if cls == "pi":
         return rm.rodrigues(rand_axis(rng), PI)
+    if cls == "diagonal_axis":
+        # axes with exactly tied components (face and body diagonals of the cube): the rotation
+        # matrix has exactly equal diagonal entries; any angle, half of them beyond 120 degrees
+        a = np.array([[1, 1, 0], [1, -1, 0], [1, 0, 1], [1, 0, -1], [0, 1, 1], [0, 1, -1], [1, 1, 1], [1, -1, 1],
+                      [-1, 1, 1], [1, 1, -1]][rng.integers(10)], dtype=float)
+        th = rng.uniform(2 * PI / 3, PI) if rng.random() < .5 else rng.uniform(0, PI)
+        return rm.rodrigues(a / np.linalg.norm(a), th)
     raise KeyError(cls)
 
 
-ROT_CLASSES = ["uniform", "identity", "axis_aligned", "quarter_turns", "small", "near_pi", "pi"]
+ROT_CLASSES = ["uniform", "identity", "axis_aligned", "quarter_turns", "small", "near_pi", "pi", "diagonal_axis"]
 
 
 def stamps_of_class(rng, n, cls):
